@@ -1,8 +1,13 @@
 (* C17 runner.  Case lines:
      RM <ops|-> <queries|->     ops = a:l:r,r:l:r,f:o,c     queries = l:r,l:r
-   Output: one S[...] per op (state after it), then one Q(a,b) per query on the final state. *)
+       -> one S[...] per op (state after it), then one Q(a,b) per query on the final state.
+     RD page=.. unit=.. pool=.. tp=.. maxr=.. thr=.. refilling=.. src=<hex> actual=.. filled=.. media=<hex>
+        td=.. sor=.. wor=.. ops=<op,op,..>
+       op = R/off/seg+seg/held/flags | E/off/cnt | T
+       -> one token per op `ret:ubufhex:events`, then the final store. *)
 let zs = string_of_z
-let show_map m = "S[" ^ String.concat ";" (List.map (fun (s, e) -> zs s ^ "-" ^ zs e) m) ^ "]"
+let show_ivs m = String.concat ";" (List.map (fun (s, e) -> zs s ^ "-" ^ zs e) m)
+let show_map m = "S[" ^ show_ivs m ^ "]"
 let parse_op s = match split_on ':' s with
   | ["a"; l; r] -> RAdd (z_of_string l, z_of_string r)
   | ["r"; l; r] -> RRemove (z_of_string l, z_of_string r)
@@ -18,8 +23,56 @@ let run_rm ops qs =
     | [l; r] -> let (a, b) = queryRefillRange fin (z_of_string l) (z_of_string r) in "Q(" ^ zs a ^ "," ^ zs b ^ ")"
     | _ -> failwith "bad query") (list_of qs) in
   print_endline (String.concat " " (List.map show_map tr @ qo))
+
+(* ---- RD ---- *)
+let unhex s = if s = "-" then [] else
+  List.init (String.length s / 2) (fun i -> z_of_int (int_of_string ("0x" ^ String.sub s (2 * i) 2)))
+let hex l = if l = [] then "-" else String.concat "" (List.map (fun b -> Printf.sprintf "%02x" (int_of_z b)) l)
+let parse_outcomes s = if s = "-" then [] else List.map (fun t ->
+  if t = "k" then OOk else if t = "f" then OFail
+  else OShort (z_of_string (String.sub t 1 (String.length t - 1)))) (split_on ',' s)
+let parse_filled s = if s = "-" then [] else List.map (fun iv ->
+  match split_on '-' iv with [a; b] -> (z_of_string a, z_of_string b) | _ -> failwith "bad iv") (split_on ';' s)
+let parse_held s = if s = "-" then [] else List.map (fun h ->
+  match split_on ':' h with [o; l; f] -> ((z_of_string o, z_of_string l), f = "1") | _ -> failwith "bad held") (split_on ';' s)
+let parse_rdop s = match String.split_on_char '/' s with
+  | ["R"; off; segs; held; flags] ->
+      let vs = List.fold_left (fun a x -> a + int_of_string x) 0 (String.split_on_char '+' segs) in
+      OpRead (z_of_string off, z_of_int vs, parse_held held, String.contains flags 'c', String.contains flags 's')
+  | ["E"; off; cnt] -> OpEvict (z_of_string off, z_of_string cnt)
+  | ["T"] -> OpEvictAll
+  | _ -> failwith ("bad rd op " ^ s)
+let show_ev = function
+  | EvStat r -> "st" ^ zs r
+  | EvSrc (o, l, r) -> "sr" ^ zs o ^ "/" ^ zs l ^ "/" ^ zs r
+  | EvMedR (o, l, r) -> "mr" ^ zs o ^ "/" ^ zs l ^ "/" ^ zs r
+  | EvMedW (o, l, r) -> "mw" ^ zs o ^ "/" ^ zs l ^ "/" ^ zs r
+  | EvMedT l -> "mt" ^ zs l
+  | EvPunch (o, l) -> "ph" ^ zs o ^ "/" ^ zs l
+  | EvWait -> "wt"
+  | EvRet r -> "rt" ^ zs r
+let run_rd kvs =
+  let tbl = Hashtbl.create 16 in
+  List.iter (fun kv -> match String.index_opt kv '=' with
+    | Some i -> Hashtbl.replace tbl (String.sub kv 0 i) (String.sub kv (i + 1) (String.length kv - i - 1))
+    | None -> ()) kvs;
+  let g k = Hashtbl.find tbl k in
+  let gz k = z_of_string (g k) in
+  let cfg = { c_page = gz "page"; c_unit = gz "unit"; c_pool = (g "pool" = "1"); c_tp = (g "tp" = "1");
+              c_maxr = gz "maxr"; c_thr = gz "thr" } in
+  let st = { s_actual = gz "actual"; s_filled = parse_filled (g "filled"); s_media = unhex (g "media");
+             s_td = (g "td" = "1"); s_refilling = gz "refilling" } in
+  let w = { w_st = st; w_sor = parse_outcomes (g "sor"); w_wor = parse_outcomes (g "wor"); w_ubuf = [];
+            w_held = []; w_pending = []; w_log = [] } in
+  let ops = List.map parse_rdop (split_on ',' (g "ops")) in
+  let (rs, w2) = run_ops (unhex (g "src")) cfg w ops in
+  let toks = List.map (fun ((r, ub), log) -> zs r ^ ":" ^ hex ub ^ ":" ^ (if log = [] then "-" else String.concat "," (List.map show_ev log))) rs in
+  let s2 = w2.w_st in
+  print_endline (String.concat " " toks ^ " ST actual=" ^ zs s2.s_actual ^ " filled=[" ^ show_ivs s2.s_filled ^ "] media=" ^ hex s2.s_media
+                 ^ " td=" ^ (if s2.s_td then "1" else "0") ^ " refilling=" ^ zs s2.s_refilling)
 let () =
   iter_lines Sys.argv.(1) (fun l ->
     match split_on ' ' l with
     | ["RM"; ops; qs] -> run_rm ops qs
+    | "RD" :: kvs -> (try run_rd kvs with Failure m -> print_endline ("BADCASE " ^ m) | Not_found -> print_endline "BADCASE missing key")
     | _ -> print_endline "BADCASE")
